@@ -21,19 +21,21 @@ type Profile struct {
 	MaxRune                                                                            bool
 	CaptureOnly                                                                        int  // percent of backtrack points (choices, lookaheads, optional/repeated elements) whose operand is built from terminals and captures only
 	RecSplice                                                                          int  // percent of grammars that get a nested-group idiom (recursive alternative sharing its first character with a sibling)
+	WUntil                                                                             int  // weight of the "(!T .)* T" idiom with a terminator T that leaves tokens
+	ListSplice                                                                         int  // percent of grammars whose first rule becomes a right-recursive list whose items end in the grammar's last action
 	MemoSplice                                                                         int  // percent of grammars with a re-enter-after-overwrite choice (memo splice)
 	RefHeavy                                                                           bool // rule bodies are sequences of references and captures
 	Dispatch                                                                           int  // percent of choices built as first-character dispatch (what -switch rewrites)
 }
 
 var Profiles = map[string]Profile{
-	"plain":      {Name: "plain", MinRules: 2, MaxRules: 6, Depth: 3, AltMin: 2, AltMax: 4, SeqMax: 4, WTerm: 22, WSeq: 20, WAlt: 18, WOpt: 6, WStar: 6, WPlus: 6, WAnd: 4, WNot: 4, WCap: 6, WRef: 8, WAct: 6, WPred: 2, WState: 1, Hostile: 8, Newline: 2},
+	"plain":      {Name: "plain", WUntil: 3, ListSplice: 20, MinRules: 2, MaxRules: 6, Depth: 3, AltMin: 2, AltMax: 4, SeqMax: 4, WTerm: 22, WSeq: 20, WAlt: 18, WOpt: 6, WStar: 6, WPlus: 6, WAnd: 4, WNot: 4, WCap: 6, WRef: 8, WAct: 6, WPred: 2, WState: 1, Hostile: 8, Newline: 2},
 	"switchy":    {Name: "switchy", Dispatch: 60, RecSplice: 40, MinRules: 2, MaxRules: 6, Depth: 3, AltMin: 3, AltMax: 6, SeqMax: 3, WTerm: 22, WSeq: 16, WAlt: 30, WOpt: 6, WStar: 5, WPlus: 4, WAnd: 5, WNot: 5, WCap: 4, WRef: 10, WAct: 4, WPred: 1, WState: 0, Hostile: 6, Newline: 1},
-	"backtracky": {Name: "backtracky", MemoSplice: 50, CaptureOnly: 35, MinRules: 2, MaxRules: 5, Depth: 3, AltMin: 2, AltMax: 4, SeqMax: 4, WTerm: 18, WSeq: 22, WAlt: 22, WOpt: 5, WStar: 5, WPlus: 4, WAnd: 6, WNot: 4, WCap: 10, WRef: 12, WAct: 10, WPred: 1, WState: 0, Hostile: 3, Newline: 1, SharedPrefix: 60},
-	"deep":       {Name: "deep", CaptureOnly: 10, MinRules: 3, MaxRules: 7, Depth: 4, AltMin: 2, AltMax: 3, SeqMax: 3, WTerm: 14, WSeq: 22, WAlt: 12, WOpt: 6, WStar: 6, WPlus: 6, WAnd: 2, WNot: 2, WCap: 14, WRef: 18, WAct: 8, WPred: 1, WState: 0, Hostile: 10, Newline: 2},
-	"erry":       {Name: "erry", RefHeavy: true, MinRules: 4, MaxRules: 7, Depth: 3, AltMin: 2, AltMax: 3, SeqMax: 5, WTerm: 14, WSeq: 30, WAlt: 10, WOpt: 6, WStar: 5, WPlus: 6, WAnd: 2, WNot: 2, WCap: 14, WRef: 30, WAct: 2, WPred: 1, WState: 0, Hostile: 15, Newline: 20},
-	"actiony":    {Name: "actiony", CaptureOnly: 10, MinRules: 2, MaxRules: 5, Depth: 3, AltMin: 2, AltMax: 3, SeqMax: 5, WTerm: 14, WSeq: 26, WAlt: 14, WOpt: 8, WStar: 8, WPlus: 8, WAnd: 5, WNot: 3, WCap: 16, WRef: 12, WAct: 24, WPred: 1, WState: 0, Hostile: 4, Newline: 2, SharedPrefix: 40},
-	"liney":      {Name: "liney", MinRules: 2, MaxRules: 5, Depth: 3, AltMin: 2, AltMax: 4, SeqMax: 5, WTerm: 26, WSeq: 24, WAlt: 14, WOpt: 6, WStar: 6, WPlus: 6, WAnd: 3, WNot: 3, WCap: 6, WRef: 8, WAct: 3, WPred: 1, WState: 0, Hostile: 25, Newline: 25},
+	"backtracky": {Name: "backtracky", WUntil: 8, ListSplice: 20, MemoSplice: 50, CaptureOnly: 35, MinRules: 2, MaxRules: 5, Depth: 3, AltMin: 2, AltMax: 4, SeqMax: 4, WTerm: 18, WSeq: 22, WAlt: 22, WOpt: 5, WStar: 5, WPlus: 4, WAnd: 6, WNot: 4, WCap: 10, WRef: 12, WAct: 10, WPred: 1, WState: 0, Hostile: 3, Newline: 1, SharedPrefix: 60},
+	"deep":       {Name: "deep", WUntil: 4, CaptureOnly: 10, MinRules: 3, MaxRules: 7, Depth: 4, AltMin: 2, AltMax: 3, SeqMax: 3, WTerm: 14, WSeq: 22, WAlt: 12, WOpt: 6, WStar: 6, WPlus: 6, WAnd: 2, WNot: 2, WCap: 14, WRef: 18, WAct: 8, WPred: 1, WState: 0, Hostile: 10, Newline: 2},
+	"erry":       {Name: "erry", WUntil: 4, RefHeavy: true, MinRules: 4, MaxRules: 7, Depth: 3, AltMin: 2, AltMax: 3, SeqMax: 5, WTerm: 14, WSeq: 30, WAlt: 10, WOpt: 6, WStar: 5, WPlus: 6, WAnd: 2, WNot: 2, WCap: 14, WRef: 30, WAct: 2, WPred: 1, WState: 0, Hostile: 15, Newline: 20},
+	"actiony":    {Name: "actiony", WUntil: 8, ListSplice: 40, CaptureOnly: 10, MinRules: 2, MaxRules: 5, Depth: 3, AltMin: 2, AltMax: 3, SeqMax: 5, WTerm: 14, WSeq: 26, WAlt: 14, WOpt: 8, WStar: 8, WPlus: 8, WAnd: 5, WNot: 3, WCap: 16, WRef: 12, WAct: 24, WPred: 1, WState: 0, Hostile: 4, Newline: 2, SharedPrefix: 40},
+	"liney":      {Name: "liney", WUntil: 6, MinRules: 2, MaxRules: 5, Depth: 3, AltMin: 2, AltMax: 4, SeqMax: 5, WTerm: 26, WSeq: 24, WAlt: 14, WOpt: 6, WStar: 6, WPlus: 6, WAnd: 3, WNot: 3, WCap: 6, WRef: 8, WAct: 3, WPred: 1, WState: 0, Hostile: 25, Newline: 25},
 }
 
 // ProfileMix is the fixed mix of a lab batch (cycled through by grammar index).
@@ -197,7 +199,7 @@ func (s *genState) expr(i, depth int, must, guarded bool) *Expr {
 		w int
 		k string
 	}
-	opts := []opt{{p.WTerm, "term"}, {p.WSeq, "seq"}, {p.WAlt, "alt"}, {p.WPlus, "plus"}, {p.WCap, "cap"}, {p.WRef, "ref"}}
+	opts := []opt{{p.WTerm, "term"}, {p.WSeq, "seq"}, {p.WAlt, "alt"}, {p.WPlus, "plus"}, {p.WCap, "cap"}, {p.WRef, "ref"}, {p.WUntil, "until"}}
 	if !must {
 		opts = append(opts, opt{p.WOpt, "opt"}, opt{p.WStar, "star"}, opt{p.WAnd, "and"}, opt{p.WNot, "not"}, opt{p.WAct, "act"}, opt{p.WPred, "pred"}, opt{p.WState, "state"})
 	}
@@ -220,7 +222,7 @@ func (s *genState) expr(i, depth int, must, guarded bool) *Expr {
 			// the whole backtrack point is built from terminals and captures only: the only
 			// tokens it can leave behind are capture tokens
 			saved := s.p
-			s.p.WRef, s.p.WAct, s.p.WPred, s.p.WState, s.p.CaptureOnly = 0, 0, 0, 0, 0
+			s.p.WRef, s.p.WAct, s.p.WPred, s.p.WState, s.p.CaptureOnly, s.p.WUntil = 0, 0, 0, 0, 0, 0
 			s.p.WCap += 25
 			savedNo := s.noNames
 			s.noNames = true
@@ -228,6 +230,50 @@ func (s *genState) expr(i, depth int, must, guarded bool) *Expr {
 		}
 	}
 	switch kind {
+	case "until":
+		// "everything up to a terminator": (!T x)* T, where matching T leaves tokens behind
+		// (a capture, an action, a rule) that the failing !T has to take back
+		var term *Expr
+		switch rapid.IntRange(0, 3).Draw(t, "untilT") {
+		case 0:
+			term = Un(KCap, s.term())
+		case 1:
+			term = Seq(Un(KCap, s.term()), &Expr{K: KAct})
+		default:
+			j := -1
+			if guarded {
+				j = rapid.IntRange(0, s.n-1).Draw(t, "untilrefg")
+			} else if i+1 < s.n {
+				j = rapid.IntRange(i+1, s.n-1).Draw(t, "untilrefu")
+			}
+			if j >= 0 && s.known[j] && s.ruleMust[j] {
+				term = Ref(j)
+			} else {
+				term = Un(KCap, s.term())
+			}
+		}
+		var any *Expr = &Expr{K: KDot}
+		if s.pct(40, "untilany") {
+			any = s.term()
+		}
+		loopKind := KStar
+		if must {
+			loopKind = KPlus
+		} else if s.pct(20, "untilopt") {
+			loopKind = KOpt
+		}
+		loop := Un(loopKind, Seq(Un(KNot, term.Clone()), any))
+		if s.pct(30, "untilcap") {
+			loop = Un(KCap, loop)
+		}
+		e := Seq(loop)
+		if s.pct(30, "untilact") {
+			e.Kids = append(e.Kids, &Expr{K: KAct})
+		}
+		if s.pct(75, "untilterm") {
+			e.Kids = append(e.Kids, term)
+		}
+		return e
 	case "term":
 		return s.term()
 	case "seq":
@@ -568,6 +614,39 @@ func (s *genState) memoSplice(g *Grammar) {
 	s.rules = g.Rules
 }
 
+// listSplice turns the first rule into a right-recursive list  R0 <- Item sep R0 / Item / (old)
+// whose Item is a new last rule ending in an action - the grammar's last action in textual
+// order - so that the first rule is re-entered right after that action ran.
+func (s *genState) listSplice(g *Grammar) {
+	t := s.t
+	k := len(g.Rules)
+	item := &Expr{K: KLit, Runes: []rune{rapid.SampledFrom(baseAlpha).Draw(t, "lsitem")}}
+	var body *Expr
+	switch rapid.IntRange(0, 2).Draw(t, "lsshape") {
+	case 0:
+		body = Seq(item, &Expr{K: KAct})
+	case 1:
+		body = Seq(Un(KCap, item), &Expr{K: KAct})
+	default:
+		body = Seq(&Expr{K: KAct}, Un(KPlus, item), &Expr{K: KAct})
+	}
+	g.Rules = append(g.Rules, &Rule{Name: fmt.Sprintf("R%d", k), Body: body})
+	var rec *Expr
+	switch rapid.IntRange(0, 2).Draw(t, "lssep") {
+	case 0:
+		rec = Seq(Ref(k), &Expr{K: KLit, Runes: []rune{','}}, Ref(0))
+	case 1:
+		rec = Seq(Ref(k), Ref(0))
+	default:
+		rec = Seq(Ref(k), Un(KOpt, Seq(&Expr{K: KLit, Runes: []rune{','}}, Ref(0))))
+	}
+	g.Rules[0].Body = &Expr{K: KAlt, Kids: []*Expr{rec, Ref(k), g.Rules[0].Body}}
+	s.n = len(g.Rules)
+	s.ruleMust = append(s.ruleMust, true)
+	s.known = append(s.known, true)
+	s.rules = g.Rules
+}
+
 // recSplice adds the nested-group idiom  G <- open B ;  B <- G close / leaf1 / leaf2 / open leaf3
 // (plus variations) and lets the first rule try it first. The recursive alternative "G close"
 // and the sibling "open leaf3" start with the same character, while G is still being analysed
@@ -638,6 +717,9 @@ func WellFormedGrammar(t *rapid.T, p Profile) *Grammar {
 	}
 	if s.pct(p.RecSplice, "recsplice") {
 		s.recSplice(g)
+	}
+	if s.pct(p.ListSplice, "listsplice") {
+		s.listSplice(g)
 	}
 	// reachability: append references to unreachable rules to the first rule
 	reach := g.Reachable()
